@@ -135,9 +135,3 @@ Fixpoint utf8_decode (bs : bytes) : option str :=
         end
       else None
   end.
-
-Definition decode_utf8 (bs : bytes) : ires str :=
-  match utf8_decode bs with Some s => IOk s | None => IRaise UnicodeDecodeErr end.
-
-(* str(bytes) for an ASCII literal and back *)
-Definition str_of_lit (b : bytes) : str := b.
